@@ -88,3 +88,211 @@ func zzH_C31_afford_iff_charge() {
 	}
 	zzObserve("can", can)
 }
+
+func zzH_C31_charge_exec_only() {
+	g := zzNondetBudget()
+	e0, s0 := zzNondetU64(), zzNondetU64()
+	zzAssume(zzInv(g, e0, s0))
+	r := zzNondetU64()
+	pre := g
+	ok := g.ChargeExecutionOnly(r)
+	// must agree with the general charge on an execution-only cost
+	h := pre
+	_, ok2 := h.Charge(GasCosts{ExecutionGas: r})
+	zzAssert(ok == ok2, "ChargeExecutionOnly accepts exactly when Charge does")
+	zzAssert(g == h, "ChargeExecutionOnly has the same effect as Charge with an execution-only cost")
+	if ok {
+		zzReach("ok")
+		zzAssert(zzInvPost(g, e0, s0), "ChargeExecutionOnly preserves the frame invariant")
+	} else {
+		zzReach("oog")
+		zzAssert(g == pre, "failed ChargeExecutionOnly leaves the budget unchanged")
+	}
+	// the two convenience wrappers
+	a, b := pre, pre
+	pa, oka := a.ChargeExecution(r)
+	pb, okb := b.ChargeState(r)
+	c, d := pre, pre
+	_, okc := c.Charge(GasCosts{ExecutionGas: r})
+	_, okd := d.Charge(GasCosts{StateGas: r})
+	zzAssert(zzAll(pa == pre, pb == pre, oka == okc, okb == okd, a == c, b == d), "ChargeExecution/ChargeState are Charge on one dimension")
+	zzObserve("ok", ok)
+	zzObserve("exec", g.ExecutionGas)
+}
+
+func zzH_C31_refund_state() {
+	g := zzNondetBudget()
+	e0, s0 := zzNondetU64(), zzNondetU64()
+	zzAssume(zzInv(g, e0, s0))
+	s := zzNondetU64()
+	zzAssume(s <= zzLim) // a refund returns state gas charged earlier in the transaction
+	pre := g
+	g.RefundState(s)
+	zzAssert(zzInvPost(g, e0, s0), "RefundState preserves the frame invariant")
+	zzAssert(g.ExecutionGas+g.StateGas == pre.ExecutionGas+pre.StateGas+s, "available gas grows by exactly the refund")
+	zzAssert(g.UsedStateGas == pre.UsedStateGas-int64(s), "state usage shrinks by the refund")
+	zzAssert(g.UsedExecutionGas == pre.UsedExecutionGas, "execution usage untouched by a state refund")
+	if s <= pre.Spilled {
+		zzReach("repay-only")
+		zzAssert(zzAll(g.StateGas == pre.StateGas, g.Spilled == pre.Spilled-s), "refund repays borrowed execution gas first")
+	} else {
+		zzReach("repay-and-refill")
+		zzAssert(zzAll(g.Spilled == 0, g.StateGas == pre.StateGas+(s-pre.Spilled)), "remainder refills the reservoir")
+	}
+	zzObserve("exec", g.ExecutionGas)
+	zzObserve("state", g.StateGas)
+	zzObserve("spilled", g.Spilled)
+}
+
+func zzH_C31_drain() {
+	g := zzNondetBudget()
+	e0, s0 := zzNondetU64(), zzNondetU64()
+	zzAssume(zzInv(g, e0, s0))
+	pre := g
+	g.DrainExecution()
+	zzAssert(zzInvPost(g, e0, s0), "DrainExecution preserves the frame invariant")
+	zzAssert(zzAll(g.ExecutionGas == 0, g.StateGas == pre.StateGas, g.UsedStateGas == pre.UsedStateGas, g.Spilled == pre.Spilled), "DrainExecution burns execution gas only")
+	zzReach("drained")
+	zzObserve("used", g.UsedExecutionGas)
+}
+
+func zzH_C31_exit_forms() {
+	g := zzNondetBudget()
+	e0, s0 := zzNondetU64(), zzNondetU64()
+	zzAssume(zzInv(g, e0, s0))
+
+	ok := g.ExitSuccess()
+	zzAssert(ok == g, "ExitSuccess hands back the running budget unchanged")
+
+	rv := g.ExitRevert()
+	zzAssert(rv.StateGas == s0, "a reverted frame hands back the whole state reservoir it started with")
+	zzAssert(rv.ExecutionGas == g.ExecutionGas+g.Spilled, "a reverted frame gets the borrowed execution gas back")
+	zzAssert(zzAll(rv.UsedStateGas == 0, rv.Spilled == 0), "a reverted frame reports no state usage")
+	zzAssert(zzInvPost(rv, e0, s0), "ExitRevert result satisfies the frame invariant")
+	zzAssert(rv.ExecutionGas+rv.StateGas <= e0+s0, "ExitRevert never hands back more than was given")
+
+	hl := g.ExitHalt()
+	zzAssert(hl.StateGas == s0, "a halted frame hands back the whole state reservoir it started with")
+	zzAssert(hl.ExecutionGas == 0, "a halted frame returns no execution gas")
+	zzAssert(zzAll(hl.UsedStateGas == 0, hl.Spilled == 0), "a halted frame reports no state usage")
+	zzAssert(hl.UsedExecutionGas == e0, "a halted frame has consumed all execution gas it was given")
+	zzAssert(zzInvPost(hl, e0, s0), "ExitHalt result satisfies the frame invariant")
+
+	// Exit dispatch
+	zzAssert(g.Exit(nil) == ok, "Exit(nil) is ExitSuccess")
+	zzAssert(g.Exit(ErrExecutionReverted) == rv, "Exit(ErrExecutionReverted) is ExitRevert")
+	zzAssert(g.Exit(ErrOutOfGas) == hl, "Exit(other error) is ExitHalt")
+	zzAssert(g.Exit(ErrInvalidJump) == hl, "Exit(other error) is ExitHalt (2)")
+	zzReach("exit-forms")
+	zzObserve("rv.exec", rv.ExecutionGas)
+	zzObserve("rv.state", rv.StateGas)
+	zzObserve("hl.used", hl.UsedExecutionGas)
+}
+
+// zzChildAfter returns an arbitrary budget a child frame can end with, given
+// that it started from NewGasBudget(x, sp): any c with Inv(c; x, sp).
+func zzChildAfter(x, sp uint64) GasBudget {
+	c := zzNondetBudget()
+	zzAssume(zzInv(c, x, sp))
+	return c
+}
+
+func zzH_C31_forward_absorb() {
+	p := zzNondetBudget()
+	e0, s0 := zzNondetU64(), zzNondetU64()
+	zzAssume(zzInv(p, e0, s0))
+	x := zzNondetU64()
+	all := zzNondetBool()
+	if all {
+		x = p.ExecutionGas
+	}
+	zzAssume(x <= p.ExecutionGas) // documented caller obligation of Forward/forwardGas
+	pre := p
+	var c GasBudget
+	if all {
+		c = p.ForwardAll()
+	} else {
+		c = p.Forward(x)
+	}
+	zzAssert(c == NewGasBudget(x, pre.StateGas), "child starts with the forwarded execution gas and the whole reservoir")
+	zzAssert(zzAll(p.StateGas == 0, p.ExecutionGas == pre.ExecutionGas-x, p.UsedExecutionGas == pre.UsedExecutionGas+x), "parent is debited the forwarded gas")
+
+	end := zzChildAfter(x, pre.StateGas)
+	var left GasBudget
+	switch zzChoice(3) {
+	case 0:
+		left = end.ExitSuccess()
+		zzReach("child-success")
+	case 1:
+		left = end.ExitRevert()
+		zzReach("child-revert")
+		zzAssert(left.StateGas == pre.StateGas, "reverted child returns the reservoir it was given")
+	default:
+		left = end.ExitHalt()
+		zzReach("child-halt")
+		zzAssert(left.StateGas == pre.StateGas, "halted child returns the reservoir it was given")
+		zzAssert(left.ExecutionGas == 0, "halted child returns no execution gas")
+	}
+	zzAssert(left.ExecutionGas+left.Spilled <= x, "child cannot hand back more execution gas than was forwarded")
+	p.Absorb(left)
+	zzAssert(zzInvPost(p, e0, s0), "Forward + child + Absorb preserves the parent's frame invariant")
+	// conservation over the integers: what the parent can still spend plus what was consumed
+	zzAssert(p.ExecutionGas == pre.ExecutionGas-x+left.ExecutionGas, "parent regains exactly the child's leftover execution gas")
+	zzAssert(p.StateGas == left.StateGas, "parent's reservoir is what the child hands back")
+	zzObserve("p.exec", p.ExecutionGas)
+	zzObserve("p.state", p.StateGas)
+	zzObserve("p.used", p.UsedExecutionGas)
+	zzObserve("p.usedstate", p.UsedStateGas)
+	zzObserve("p.spilled", p.Spilled)
+}
+
+// Contract-level wrappers with a nil tracer behave like the GasBudget methods.
+func zzH_C31_contract_wrappers() {
+	g := zzNondetBudget()
+	e0, s0 := zzNondetU64(), zzNondetU64()
+	zzAssume(zzInv(g, e0, s0))
+	amt := zzNondetU64()
+	c := &Contract{Gas: g}
+	ref := g
+	lent := false
+	switch zzChoice(5) {
+	case 0:
+		ok := c.chargeExecution(amt, nil, 0)
+		_, ok2 := ref.ChargeExecution(amt)
+		zzAssert(ok == ok2, "chargeExecution result")
+		zzReach("chargeExecution")
+	case 1:
+		ok := c.chargeState(amt, nil, 0)
+		_, ok2 := ref.ChargeState(amt)
+		zzAssert(ok == ok2, "chargeState result")
+		zzReach("chargeState")
+	case 2:
+		zzAssume(amt <= zzLim)
+		c.refundState(amt, nil, 0)
+		ref.RefundState(amt)
+		zzReach("refundState")
+	case 3:
+		zzAssume(amt <= g.ExecutionGas)
+		ch := c.forwardGas(amt, nil, 0)
+		ch2 := ref.Forward(amt)
+		zzAssert(ch == ch2, "forwardGas child budget")
+		zzReach("forwardGas")
+		lent = true
+	default:
+		zzAssume(amt <= g.ExecutionGas)
+		ref.Forward(amt)
+		c.Gas = ref
+		left := zzChildAfter(amt, g.StateGas).Exit(nil)
+		c.refundGas(left, nil, 0)
+		ref.Absorb(left)
+		zzReach("refundGas")
+	}
+	zzAssert(c.Gas == ref, "Contract gas wrapper has exactly the effect of the GasBudget method")
+	if !lent {
+		// (while gas is lent to a child the reservoir equation is suspended; it is
+		// re-established by refundGas, which forward_absorb and case 4 check)
+		zzAssert(zzInvPost(c.Gas, e0, s0), "Contract gas wrapper preserves the frame invariant")
+	}
+	zzObserve("exec", c.Gas.ExecutionGas)
+	zzObserve("state", c.Gas.StateGas)
+}
